@@ -21,13 +21,13 @@ TRUSTED = [
 ]
 ASSUMPTIONS = ["max_evals >= 0 for counted calls", "run-functions return"]
 RULE = ("sequences of <= 4 calls from {max_evals n, strict n, timeout 1s, timeout+max_evals} x n in {1,2,5} x workers {1,3,4} x backend {serial, thread} x "
-        "{RandomSearch, CBO-DUMMY}; non-trivial = at least 2 calls of different kinds")
+        "{RandomSearch, CBO-DUMMY, CBO-ET, RegularizedEvolution, ExperimentalDesignSearch}; non-trivial = at least 2 calls of different kinds")
 F_CHECK = 301
 
 
 def run_case(case):
     from deephyper.evaluator import Evaluator
-    from deephyper.hpo import CBO, HpProblem, RandomSearch
+    from deephyper.hpo import CBO, ExperimentalDesignSearch, HpProblem, RandomSearch, RegularizedEvolution
 
     calls = [0]
     dur = case.get("dur", 0.0)
@@ -64,6 +64,13 @@ def run_case(case):
     with tempfile.TemporaryDirectory(prefix="vp_c03_") as d:
         if case["search"] == "random":
             search = RandomSearch(problem, evaluator, random_state=case.get("seed", 1), log_dir=d)
+        elif case["search"] == "regevo":  # small population: the evolution phase starts within the budgets used here
+            search = RegularizedEvolution(problem, evaluator, random_state=case.get("seed", 1), log_dir=d, population_size=4, sample_size=2)
+        elif case["search"] == "eds":
+            search = ExperimentalDesignSearch(problem, evaluator, random_state=case.get("seed", 1), log_dir=d, n_points=64, design="random")
+        elif case["search"] == "cbo_et":  # a real surrogate: the model phase starts after the initial points
+            search = CBO(problem, evaluator, random_state=case.get("seed", 1), log_dir=d, surrogate_model="ET", n_initial_points=3, verbose=0,
+                         surrogate_model_kwargs={"n_estimators": 5})
         else:
             search = CBO(problem, evaluator, random_state=case.get("seed", 1), log_dir=d, surrogate_model="DUMMY", verbose=0)
         for kind, n in case["calls"]:
@@ -105,6 +112,7 @@ def check(case):
 
 
 KINDS = ["plain", "strict", "timeout", "timeout_max"]
+SEARCHES = ["random", "cbo", "random", "regevo", "cbo", "eds", "random", "cbo_et", "regevo", "cbo"]
 
 
 def gen(count, backends):
@@ -135,7 +143,7 @@ def gen(count, backends):
                 calls.append([k, rng.choice([1, 2, 5])])
             slow = nt and any(k == "timeout_max" for k, _ in calls) and rng.random() < 0.5
             yield dict(calls=calls, workers=rng.choice([1, 3, 4]) if not slow else 1, backend=backends[i % len(backends)],
-                       search="random" if i % 3 else "cbo", dur=(0.3 if slow else 0.02) if nt else 0.0, seed=rng.randint(0, 1000))
+                       search=SEARCHES[i % len(SEARCHES)], dur=(0.3 if slow else 0.02) if nt else 0.0, seed=rng.randint(0, 1000))
     return g
 
 
@@ -149,6 +157,8 @@ def shrink(case):
             yield dict(case, calls=cs[:i] + [[k, n - 1]] + cs[i + 1:])
     if case["workers"] > 1:
         yield dict(case, workers=1)
+    if case["search"] not in ("random", "cbo"):
+        yield dict(case, search="cbo")
     if case["search"] != "random":
         yield dict(case, search="random")
     if case["backend"] != "serial":
